@@ -272,8 +272,8 @@ class C11:
                        "td['mask'] supplied by the harness (no bundled environment sets it)",
                        "EDA PDN data files (stub npy)"]
     assumptions = ["CPU float32", "instances from the library generators at 4-7 nodes", "OP instances use "
-                   "max_length 3.0 (every customer reachable) and AM x mTSP runs with B>=2 and without "
-                   "multi-start: the start-node and batch-size-one defects belong to C12 / C14",
+                   "max_length 3.0 (every customer reachable) and AM x mTSP runs without multi-start / num_samples "
+                   "(DESIGN 7.17 is reported by C12)",
                    "MatNet's random one-hot embedding: torch is seeded identically before run 1 and run 2 and "
                    "only replays with the same number of encoder rows are compared",
                    "PolyNet conditions its logits on the replica slot: only slot-preserving replays (original "
@@ -288,7 +288,6 @@ class C11:
         ["matnet", "atsp", "round trip on the k-fold expanded batch", "random one-hot embedding is drawn per "
          "encoder row; replay is done on the original batch with num_samples=k under the same seed"],
         ["am", "mtsp", "multistart/beam/num_samples", "raises in MTSPContext._distance_from_depot (DESIGN 7.17, C12)"],
-        ["*", "mtsp", "B=1", "MTSPEnv.get_reward returns a 0-dim tensor at batch size one (C14's business)"],
         ["*", "ffsp/dpp/mdpp", "multistart/num_samples/beam", "no start-node rule / per-episode tables on the "
          "environment object are not replicated"],
         ["*", "svrp/smtwtp/mdcpdp/dpp/mdpp", "multistart/beam", "no start-node rule in get_num_starts"],
@@ -319,8 +318,6 @@ class C11:
         cfg = _cfg_for(kind, name, n, rc)
         env = E.make_env(cfg)
         B = rc.choice([1, 2, 2, 3, 3, 4])
-        if name == "mtsp":
-            B = max(B, 2)  # DESIGN 7.4 and the 0-dim minmax reward at batch size one (C14)
         if scenario == "ppo":
             B = rc.choice([2, 3, 4, 5])
         rows = E.gen_rows(env, cfg, B, st.torch_seed("instances"))
@@ -384,7 +381,7 @@ class C11:
 
     @staticmethod
     def shrink(plan):
-        if len(plan["instances"]) > 1 and not (plan["cfg"]["env"] == "mtsp" and len(plan["instances"]) <= 2):  # noqa: E501
+        if len(plan["instances"]) > 1:
             for i in range(len(plan["instances"])):
                 p = copy.deepcopy(plan)
                 del p["instances"][i]
@@ -443,6 +440,11 @@ def _setup(run):
     with run.guard(scope, "env.reset"):
         td = E.reset(env, cfg, rows)
     return env, pol, td, scope
+
+
+def _max_steps(td) -> int:
+    """generous cap on decoding steps: keeps a run bounded when a mutant breaks termination"""
+    return 6 * int(td["action_mask"].shape[-1]) + 60
 
 
 def _hexes(t):
@@ -625,7 +627,7 @@ def _execute_roundtrip(run):
     with torch.no_grad(), ProcessTap() as tap1:
         with run.guard(scope, f"policy forward ({mode})", mode=mode, k=k, B=B):
             out1 = pol(td.clone(), env, phase="test", return_actions=True,
-                       return_entropy=plan["ret_entropy"],
+                       return_entropy=plan["ret_entropy"], max_steps=_max_steps(td),
                        return_sum_log_likelihood=plan["ret_sum"], **kw1)
     a1 = out1["actions"]
     R = a1.shape[0]
@@ -680,7 +682,7 @@ def _execute_roundtrip(run):
             with run.guard(scope, f"policy forward (evaluate, {vname})", mode=mode, k=k, B=B, variant=vname):
                 try:
                     out2 = pol(td2, env, phase="test", actions=a1, return_actions=True, return_entropy=ret_e2,
-                               return_sum_log_likelihood=False, **dk, **extra)
+                               return_sum_log_likelihood=False, max_steps=a1.shape[1] + 2, **dk, **extra)
                 except AssertionError as e:
                     lp0 = tap2.records[0].logprobs if tap2.records else None
                     if (forced and lp0 is not None and "Logprobs should not be -inf" in str(e)
@@ -1052,7 +1054,22 @@ def _canary_select_best_logp_other_row():
     return _patch_attr(dec.DecodingStrategy, "_select_best", _select_best)
 
 
+def _canary_mdam_unnormalised():
+    """MDAM reports the clipped, masked logits of the taken actions as log-probabilities (the normalize
+    flag of _get_logprobs is ignored) -- the defect repaired by the repo commit 'fix: MDAM decoder uses
+    unnormalised logits as log-probabilities'."""
+    import rl4co.models.zoo.mdam.decoder as md
+
+    orig = md.MDAMDecoder._get_logprobs
+
+    def _get_logprobs(self, fixed, td, path_index, normalize=True):
+        return orig(self, fixed, td, path_index, normalize=False)
+
+    return _patch_attr(md.MDAMDecoder, "_get_logprobs", _get_logprobs)
+
+
 C11.CANARIES = {
+    "mdam_unnormalised": _canary_mdam_unnormalised,
     "gather_before_process": _canary_gather_before_process,
     "logprob_one_step_late": _canary_logprob_one_step_late,
     "first_multistart_logp": _canary_first_multistart_logp,
